@@ -1,0 +1,13 @@
+//go:build verif
+
+package mux
+
+// VerifAddress returns the listen address of a receiving mux provider (build tag "verif" only).
+func VerifAddress(p MuxProvider) string {
+	if mp, ok := p.(*muxProvider); ok {
+		if a, ok := mp.connProvider.(interface{ Address() string }); ok {
+			return a.Address()
+		}
+	}
+	return ""
+}
